@@ -110,7 +110,7 @@ class FA:
         return self.func.site(node)
 
 
-def expand(expr, fa, depth=4):
+def expand(expr, fa, depth=4, calls=False):
     """A copy of expr in which every name that has exactly one reaching plain definition is replaced by that definition (recursively):
     `found = key in table; if found:` reads as `if key in table:`.  The copy is not part of the analysed tree; use it for matching only."""
     from .astutil import clone
@@ -120,6 +120,14 @@ def expand(expr, fa, depth=4):
             return e
         if isinstance(e, ast.Name) and isinstance(e.ctx, ast.Load):
             v = fa.resolve(e)
+            if v is not None and ((isinstance(v, ast.Call) and isinstance(v.func, ast.Name) and v.func.id in ('list', 'dict', 'set') and not v.args)
+                                  or (isinstance(v, (ast.List, ast.Dict, ast.Set)) and not getattr(v, 'elts', getattr(v, 'keys', None)))):
+                return e                # an accumulator: the name stands for what is collected in it, not for the empty container
+            if v is not None and isinstance(v, ast.Call) and isinstance(v.func, ast.Attribute) and v.func.attr in (
+                    'zeros', 'ones', 'empty', 'full', 'zeros_like', 'ones_like', 'empty_like', 'full_like'):
+                return e                # a work array filled in later: likewise
+            if v is not None and calls:
+                return rec(v, d - 1)
             if v is not None and not isinstance(v, (ast.Call,)) or (v is not None and isinstance(v, ast.Call) and isinstance(v.func, ast.Attribute)
                                                                  and v.func.attr in ('upper', 'lower', 'strip')):
                 return rec(v, d - 1)
